@@ -362,6 +362,11 @@ TUPLES = [
     (("name", "alice"), ("plan", "pro")), (("name", "uid"),), (("name", "x"), ("name", "y")), (("group_definition", "a"), ("weight", 1)),
     (("left_term", 1), ("operator", "=="), ("right_term", 2)), (("id", "e"), ("conditions", 1)), (("k", "v"),), ((1, 2), (3, 4)), (("a", 1), ("b", 2), ("c", 3)),
     (("name",),), ("name", "uid"), (("name", "uid", "x"),),
+    # long lists (allow-lists of ids, postal codes, versions): 16 .. 300 members of mixed digit counts and signs, unsorted, with
+    # repeats; of one type and mixed
+    tuple((i * 7919) % 1000 - 300 for i in range(16)), tuple((i * 104729) % 100000 for i in range(40)), tuple(range(100, -1, -7)), tuple(10 ** (i % 19) + i for i in range(60)),
+    tuple(-(2 ** i) for i in range(20)) + tuple(2 ** i for i in range(20)), tuple(range(300)), tuple(float(i) / 4 for i in range(-20, 20)),
+    tuple(str((i * 7919) % 1000) for i in range(32)), tuple(i if i % 3 else str(i) for i in range(24)), tuple([5] * 16 + [3, 10, 2]), tuple(2 ** 53 + i for i in range(17)),
 ]
 
 
